@@ -119,6 +119,15 @@ ESCAPES = [
     ("get_unique reference returned past its Arc", "SIG:-> &'static mut UniqueArc<String>\nlet mut a = mk(); Arc::get_unique(&mut a).unwrap()", "SIG:-> usize\nlet mut a = mk(); Arc::get_unique(&mut a).unwrap().len()"),
     ("OffsetArc::make_mut reference returned past its owner", "SIG:-> &'static mut String\nlet mut o = mk_off(); o.make_mut()", "SIG:-> usize\nlet mut o = mk_off(); o.make_mut().len()"),
     ("ArcUnion::borrow returned past the union", "SIG:-> ArcUnionBorrow<'static, String, u8>\nlet u = mk_union(); u.borrow()", "SIG:-> bool\nlet u = mk_union(); matches!(u.borrow(), ArcUnionBorrow::First(_))"),
+    ("ArcUnion::as_second returned past the union", "SIG:-> Option<ArcBorrow<'static, String>>\nlet u: ArcUnion<u8, String> = ArcUnion::from_second(mk()); u.as_second()", "SIG:-> bool\nlet u: ArcUnion<u8, String> = ArcUnion::from_second(mk()); u.as_second().is_some()"),
+    ("AsRef reference returned past its Arc", "SIG:-> &'static String\nlet a = mk(); a.as_ref()", "SIG:-> usize\nlet a = mk(); let r: &String = a.as_ref(); r.len()"),
+    ("Borrow reference returned past its Arc", "SIG:-> &'static String\nlet a = mk(); std::borrow::Borrow::borrow(&a)", "SIG:-> usize\nlet a = mk(); let r: &String = std::borrow::Borrow::borrow(&a); r.len()"),
+    ("UniqueArc Deref reference returned past its owner", "SIG:-> &'static String\nlet u = mk_unique(); &*u", "SIG:-> usize\nlet u = mk_unique(); (&*u).len()"),
+    ("UniqueArc<MaybeUninit>::write reference returned past its owner", "SIG:-> &'static mut String\nlet mut u: UniqueArc<std::mem::MaybeUninit<String>> = UniqueArc::new_uninit(); u.write(String::new())", "SIG:-> usize\nlet mut u: UniqueArc<std::mem::MaybeUninit<String>> = UniqueArc::new_uninit(); let n = u.write(String::new()).len(); unsafe { drop(UniqueArc::assume_init(u)) }; n"),
+    ("deprecated Arc<MaybeUninit>::write reference returned past its owner", "SIG:-> &'static mut u32\nlet mut a: Arc<std::mem::MaybeUninit<u32>> = Arc::new_uninit(); a.write(1)", "SIG:-> u32\nlet mut a: Arc<std::mem::MaybeUninit<u32>> = Arc::new_uninit(); *a.write(1)"),
+    ("deprecated as_mut_slice reference returned past its owner", "SIG:-> &'static mut [std::mem::MaybeUninit<u32>]\nlet mut a: Arc<[std::mem::MaybeUninit<u32>]> = Arc::new_uninit_slice(2); a.as_mut_slice()", "SIG:-> usize\nlet mut a: Arc<[std::mem::MaybeUninit<u32>]> = Arc::new_uninit_slice(2); a.as_mut_slice().len()"),
+    ("protected header() reference stored outside with_arc_mut", "let mut t = mk_thin(); let mut out: Option<&u8> = None; t.with_arc_mut(|a| { out = Some(a.header()); }); touch(&out);", "let mut t = mk_thin(); let mut out: Option<u8> = None; t.with_arc_mut(|a| { out = Some(*a.header()); }); touch(&out);"),
+    ("protected slice_mut() reference stored outside with_arc_mut", "let mut t = mk_thin(); let mut out: Option<&mut [u16]> = None; t.with_arc_mut(|a| { out = Arc::get_mut(a).map(|p| p.slice_mut()); }); touch(&out);", "let mut t = mk_thin(); let mut out: Option<usize> = None; t.with_arc_mut(|a| { out = Arc::get_mut(a).map(|p| p.slice_mut().len()); }); touch(&out);"),
     ("ArcUnion::as_first returned past the union", "SIG:-> Option<ArcBorrow<'static, String>>\nlet u = mk_union(); u.as_first()", "SIG:-> bool\nlet u = mk_union(); u.as_first().is_some()"),
     ("UniqueArc DerefMut reference returned past its owner", "SIG:-> &'static mut String\nlet mut u = mk_unique(); &mut *u", "SIG:-> usize\nlet mut u = mk_unique(); (&mut *u).len()"),
     ("ThinArc Deref reference returned past its owner", "SIG:-> &'static [u16]\nlet t = mk_thin(); &t.slice", "SIG:-> usize\nlet t = mk_thin(); t.slice.len()"),
@@ -164,7 +173,7 @@ ESCAPES = [
     ("OffsetArc of a reference outlives the referent", "let keep; { let s = String::from(\"local\"); keep = Arc::into_raw_offset(Arc::new(&s)); } touch(&**keep);", "let s = String::from(\"local\"); let keep; { keep = Arc::into_raw_offset(Arc::new(&s)); } touch(&**keep);"),
     ("ArcUnion of a reference outlives the referent", "let keep: ArcUnion<&String, u8>; { let s = String::from(\"local\"); keep = ArcUnion::from_first(Arc::new(&s)); } touch(&keep.is_first());", "let s = String::from(\"local\"); let keep: ArcUnion<&String, u8>; { keep = ArcUnion::from_first(Arc::new(&s)); } touch(&keep.is_first());"),
 ]
-LIFETIME_CODES = {"E0597", "E0505", "E0499", "E0502", "E0515", "E0521", "E0716", "E0373", "E0506", "E0503", "E0382", "E0713", "E0495", "E0310", "E0759", "E0621", "E0700", "E0596"}
+LIFETIME_CODES = {"E0597", "E0505", "E0499", "E0502", "E0515", "E0521", "E0716", "E0373", "E0506", "E0503", "E0382", "E0713", "E0495", "E0310", "E0759", "E0621", "E0700", "E0596", "lifetime-may-not-live-long-enough"}
 
 
 def gen_borrow(which):
@@ -281,6 +290,8 @@ def cargo_check(dirpath, name, src, env, toolchain=None, features=None):
             continue
         code = (m.get("code") or {}).get("code")
         ls = [s["line_start"] for s in m.get("spans", []) if s.get("file_name", "").endswith("lib.rs")]
+        if code is None and "lifetime may not live long enough" in m.get("message", ""):
+            code = "lifetime-may-not-live-long-enough"  # a region error that rustc issues without a code
         diags.append({"code": code, "lines": ls, "msg": m.get("message", "")[:200]})
     return p.returncode, diags, p.stderr[-2000:]
 
